@@ -1,8 +1,8 @@
 (** C03: the attempts_before_update clamp — billed time is monotone and bounded.
 
-    Everything here is about [Model.clamp4] (a transcription of the trigger in
-    batch/sql/067-add-real-time-billing.sql; the translation of the live trigger text is proved equal to
-    it in ClampGen.v) and about sequences of update requests of the shapes the service issues. *)
+    Everything here is about [Model.clamp4] (a transcription of the trigger as redefined by
+    batch/sql/124-attempts-before-update-timeout-after-reason.sql; the translation of the live trigger text is
+    proved equal to it in ClampTie.v; [clamp4_unfixed] below is the 067 definition, kept as the regression witness) and about sequences of update requests of the shapes the service issues. *)
 From HailV Require Import Common.Prelude BatchDB.Model.
 Open Scope Z_scope.
 
@@ -39,12 +39,13 @@ Proof. reflexivity. Qed.
 (** Invariant of an attempt row. *)
 Definition AInv (a : times) : Prop :=
   (forall r e, t_rollup a = Some r -> t_end a = Some e -> r <= e) /\      (* rollup never after the end *)
-  (t_end a = None <-> t_reason a = None).                                  (* end time and end reason come together *)
+  (t_end a = None <-> t_reason a = None) /\                                (* end time and end reason come together *)
+  (t_reason a = Some REASON_ACTIVATION_TIMEOUT -> t_start a = None).       (* a timed-out attempt has no start: it bills nothing *)
 
 Definition fresh : times := (None, None, None, None).
 
 Lemma fresh_inv : AInv fresh.
-Proof. split; cbn; [discriminate | tauto]. Qed.
+Proof. repeat split; cbn; try discriminate; tauto. Qed.
 
 Ltac open_times o := destruct o as [[[os orl] oe] ors]; destruct os as [os|], orl as [orl|], oe as [oe|], ors as [ors|].
 
@@ -55,16 +56,26 @@ Ltac unfold_clamp :=
 
 Ltac ifs := repeat match goal with |- context [if ?c then _ else _] => destruct c eqn:? end.
 
+(* the third clause: a row with a start does not carry the timeout reason (case split on the stored reason) *)
+Ltac kill_timeout H3 :=
+  cbn in H3;
+  try match type of H3 with
+      | Some ?x = Some _ -> Some _ = None =>
+          destruct (Z.eq_dec x 1) as [-> | ?]; [exfalso; specialize (H3 eq_refl); discriminate | clear H3]
+      end.
+
 Lemma clamp_inv_step o r : AInv o -> AInv (clamp_apply o r).
 Proof.
-  intros [H1 H2]; open_times o; kill_inv H2;
+  intros (H1 & H2 & H3); open_times o; kill_inv H2;
   destruct r as [t | st e rs | t rs | t]; try destruct st as [st|];
-  unfold_clamp; ifs;
+  unfold AInv; unfold_clamp; ifs;
   (split; [ intros r0 e0 Hr He; cbn in *;
             try specialize (H1 _ _ eq_refl eq_refl);
             repeat match goal with H : Some _ = Some _ |- _ => injection H as H; subst end;
             try discriminate; lia
-          | cbn; split; intros; congruence ]).
+          | split; [ cbn; split; intros; congruence
+                   | cbn; intros Hq; try reflexivity; try discriminate; exfalso;
+                     injection Hq as Hq; lia ] ]).
 Qed.
 
 Theorem clamp_inv_reachable rs : AInv (fold_left clamp_apply rs fresh).
@@ -83,47 +94,83 @@ Lemma billed4_bounded t : AInv t ->
   forall e, t_end t = Some e ->
   billed4 t <= match t_start t with Some s => Z.max (e - s) 0 | None => 0 end.
 Proof.
-  intros [H1 _] e He; destruct t as [[[s r] e'] rs]; cbn in *; subst e'.
+  intros (H1 & _) e He; destruct t as [[[s r] e'] rs]; cbn in *; subst e'.
   unfold billed4; cbn. destruct r as [r|], s as [s|]; try lia.
   specialize (H1 r e eq_refl eq_refl); lia.
 Qed.
 
+(** The request carries the reason activation_timeout ... *)
 Definition request_is_timeout (r : request) : bool :=
   match r with
   | RCompleted _ _ rs | REnded _ rs => rs =? REASON_ACTIVATION_TIMEOUT
   | _ => false
   end.
 
+(** ... and it MARKS the timeout when the row carries that reason after it.  (A timeout request that arrives after the
+    attempt has ended with an earlier-or-equal end is ignored like any other late end: the stored end and reason win.) *)
+Definition marks_timeout (o : times) (r : request) : Prop :=
+  request_is_timeout r = true /\ t_reason (clamp_apply o r) = Some REASON_ACTIVATION_TIMEOUT.
+
+(** An attempt that carries the reason activation_timeout bills nothing. *)
+Lemma timeout_row_bills_nothing t : AInv t -> t_reason t = Some REASON_ACTIVATION_TIMEOUT -> t_start t = None /\ billed4 t = 0.
+Proof.
+  intros (_ & _ & H3) Hr. specialize (H3 Hr). split; [exact H3|].
+  destruct t as [[[s r] e] rs]; cbn in H3; subst s. unfold billed4; cbn. destruct r; reflexivity.
+Qed.
+
+(** Whatever the row was (no invariant needed): after a report that leaves the reason activation_timeout, nothing is billed. *)
+Lemma clamp_timeout_no_start o n : t_reason (clamp4 o n) = Some REASON_ACTIVATION_TIMEOUT -> t_start (clamp4 o n) = None.
+Proof.
+  destruct o as [[[os orl] oe] ors], n as [[[ns nrl] ne] nrs].
+  unfold clamp4, t_reason, t_start. cbv zeta.
+  match goal with |- context [if ?k then ors else nrs] => destruct k end; intros ->; reflexivity.
+Qed.
+
+Lemma timeout_bills_nothing o r : t_reason (clamp_apply o r) = Some REASON_ACTIVATION_TIMEOUT -> billed4 (clamp_apply o r) = 0.
+Proof.
+  intros H. pose proof (clamp_timeout_no_start _ _ H) as Hs. fold (clamp_apply o r) in Hs.
+  destruct (clamp_apply o r) as [[[s rl] e] rs]; cbn in Hs; subst s. unfold billed4; cbn. destruct rl; reflexivity.
+Qed.
+
+(** A timeout request on an attempt that has not ended is always accepted (it marks the timeout). *)
+Lemma timeout_request_marks o r : t_reason o = None -> request_is_timeout r = true -> marks_timeout o r.
+Proof.
+  intros Ho Hr; split; [exact Hr|].
+  open_times o; cbn in Ho; try discriminate;
+  destruct r as [t | st e rs | t rs | t]; try destruct st as [st|];
+  unfold request_is_timeout in Hr; try discriminate; apply Z.eqb_eq in Hr; subst rs; reflexivity.
+Qed.
+
 (** (3) a report never decreases the billed time unless it marks an activation timeout or leaves the
     attempt with an end time that lies before the time already billed (the end is corrected to an
     earlier time). *)
 Lemma billed4_monotone o r : AInv o ->
-  t_reason o <> Some REASON_ACTIVATION_TIMEOUT ->
   billed4 (clamp_apply o r) < billed4 o ->
-  request_is_timeout r = true \/
+  marks_timeout o r \/
   (exists e ro, t_end (clamp_apply o r) = Some e /\ t_rollup o = Some ro /\ e < ro).
 Proof.
-  intros [H1 H2] Hnt; open_times o; kill_inv H2;
+  intros (H1 & H2 & H3); open_times o; kill_inv H2; kill_timeout H3;
   destruct r as [t | st e rs | t rs | t]; try destruct st as [st|];
-  unfold request_is_timeout; unfold_clamp; cbn in Hnt |- *;
+  unfold marks_timeout, request_is_timeout; unfold_clamp; cbn;
   ifs; cbn; intros Hlt;
-  try (exfalso; apply Hnt; f_equal; lia);
   try (specialize (H1 _ _ eq_refl eq_refl));
   try lia;
-  try (left; lia);
+  try (left; split; [lia | f_equal; lia]);
   try (right; do 2 eexists; repeat split; try reflexivity; lia).
 Qed.
 
-(** (4) the start time only ever moves earlier (an activation timeout erases it: nothing is billed). *)
-Lemma start_only_earlier o r s : t_reason o <> Some REASON_ACTIVATION_TIMEOUT -> t_start o = Some s ->
+(** (4) the start time only ever moves earlier; only a report that marks an activation timeout erases it
+    (then nothing is billed). *)
+Lemma start_only_earlier o r s : AInv o -> t_start o = Some s ->
   match t_start (clamp_apply o r) with
   | Some s' => s' <= s
-  | None => request_is_timeout r = true
+  | None => marks_timeout o r
   end.
 Proof.
-  open_times o; destruct r as [t | st e rs | t rs | t]; try destruct st as [st|];
-  unfold request_is_timeout; unfold_clamp; cbn; intros Hnt Hs; try discriminate; injection Hs as <-; ifs; cbn;
-  try lia; exfalso; apply Hnt; f_equal; lia.
+  intros (H1 & H2 & H3); open_times o; kill_inv H2; kill_timeout H3;
+  destruct r as [t | st e rs | t rs | t]; try destruct st as [st|];
+  unfold marks_timeout, request_is_timeout; unfold_clamp; cbn; intros Hs; try discriminate; injection Hs as <-; ifs; cbn;
+  try lia; try (split; [lia | f_equal; lia]).
 Qed.
 
 (** (5) once an attempt has an end reason, a later report can only replace its end time with an earlier
@@ -131,28 +178,77 @@ Qed.
 Lemma end_only_earlier o r e : AInv o -> t_end o = Some e ->
   (exists e', t_end (clamp_apply o r) = Some e' /\ e' <= e) /\ t_reason (clamp_apply o r) <> None.
 Proof.
-  intros [H1 H2]; open_times o; kill_inv H2;
+  intros (H1 & H2 & _); open_times o; kill_inv H2;
   destruct r as [t | st e0 rs | t rs | t]; try destruct st as [st|];
   unfold_clamp; cbn; intros He; try discriminate; injection He as <-; ifs; cbn;
   (split; [eexists; split; [reflexivity | lia] | discriminate]).
 Qed.
 
-(** The unguarded form of (3) is FALSE for the trigger as it stands: an attempt that was ended with an
-    activation timeout keeps that reason, a late complete report (later end, so the old end and reason are
-    kept) still installs its start time and thereby bills time, and the next heartbeat erases the start
-    again (NEW.reason is still 'activation_timeout'): billed time drops from 7 to 0 on a report that is
-    neither a timeout nor an end correction.  Replayed on the real trigger by the C03 oracle. *)
+(** ... and unless the end is replaced by a strictly earlier one, end time and reason are exactly kept. *)
+Lemma end_kept_or_earlier o r e : AInv o -> t_end o = Some e ->
+  (t_end (clamp_apply o r) = Some e /\ t_reason (clamp_apply o r) = t_reason o) \/
+  (exists e', t_end (clamp_apply o r) = Some e' /\ e' < e).
+Proof.
+  intros (H1 & H2 & _); open_times o; kill_inv H2;
+  destruct r as [t | st e0 rs | t rs | t]; try destruct st as [st|];
+  unfold_clamp; cbn; intros He; try discriminate; injection He as <-; ifs; cbn;
+  first [ left; split; reflexivity | right; eexists; split; [reflexivity | lia] ].
+Qed.
+
+(* ------------------------------------------------------------------ the trigger BEFORE migration 124 (regression witness) *)
+
+(** The clamp of batch/sql/067-add-real-time-billing.sql: the activation-timeout block came BEFORE the block that restores
+    the stored end time and reason, so it tested the reason of the REQUEST (which every UPDATE that does not set the column
+    inherits from the stored row), not the reason the row will carry. *)
+Definition clamp4_unfixed (o n : times) : times :=
+  let '(os, orl, oe, ors) := o in
+  let '(ns, nrl, ne, nrs) := n in
+  let ns1 := match os with
+             | Some x => match ns with None => os | Some y => if x <? y then os else ns end
+             | None => ns end in
+  let ns2 := if oeqb nrs (Some REASON_ACTIVATION_TIMEOUT) then None else ns1 in
+  let keep := match ors with
+              | Some _ => match oe, ne with Some a, Some b => a <=? b | _, _ => true end
+              | None => false end in
+  let ne3 := if keep then oe else ne in
+  let nrs3 := if keep then ors else nrs in
+  let nrl4 := if olt nrl orl then orl else nrl in
+  let nrl5 := if olt nrl4 ns2 then orl else nrl4 in
+  let nrl6 := if olt ne3 nrl5 then ne3 else nrl5 in
+  (ns2, nrl6, ne3, nrs3).
+
+Definition clamp_apply_unfixed (o : times) (r : request) : times := clamp4_unfixed o (apply_request o r).
+
+(** With that order the full statements (3) and (4) are FALSE: an attempt that was ended with an activation timeout keeps
+    that reason, a late complete report (later end, so the old end and reason are kept) still installs its start time and
+    thereby bills time (although the attempt carries the timeout reason), and the next heartbeat erases the start again
+    (NEW.reason is still 'activation_timeout'): billed time drops from 7 to 0 and the start goes from 3 to NULL on a report
+    that is neither a timeout nor an end correction.  The same sequence through the repaired clamp: nothing is ever billed. *)
 Definition refute_history : list request := [REnded 10 REASON_ACTIVATION_TIMEOUT; RCompleted (Some 3) 12 2].
 
-Lemma billed4_monotone_refuted :
-  exists o r, AInv o /\ (exists rs, o = fold_left clamp_apply rs fresh) /\
-    billed4 (clamp_apply o r) < billed4 o /\ request_is_timeout r = false /\
-    ~ (exists e ro, t_end (clamp_apply o r) = Some e /\ t_rollup o = Some ro /\ e < ro).
+Lemma unfixed_trigger_refuted :
+  let o := fold_left clamp_apply_unfixed refute_history fresh in
+  let r := RHeartbeat 11 in
+  t_reason o = Some REASON_ACTIVATION_TIMEOUT /\ 0 < billed4 o /\                       (* a timed-out attempt is billed *)
+  billed4 (clamp_apply_unfixed o r) < billed4 o /\ request_is_timeout r = false /\       (* (3) fails *)
+  ~ (exists e ro, t_end (clamp_apply_unfixed o r) = Some e /\ t_rollup o = Some ro /\ e < ro) /\
+  t_start o = Some 3 /\ t_start (clamp_apply_unfixed o r) = None.                        (* (4) fails *)
 Proof.
-  exists (fold_left clamp_apply refute_history fresh), (RHeartbeat 11).
-  split; [apply clamp_inv_reachable|]. split; [eexists; reflexivity|].
-  vm_compute. split; [reflexivity|]. split; [reflexivity|].
+  vm_compute. repeat split; try reflexivity.
   intros (e & ro & He & Hr & Hlt). injection He as <-; injection Hr as <-. discriminate Hlt.
+Qed.
+
+Lemma fixed_trigger_on_refute_history :
+  let o := fold_left clamp_apply refute_history fresh in
+  o = (None, Some 10, Some 10, Some REASON_ACTIVATION_TIMEOUT) /\ clamp_apply o (RHeartbeat 11) = o.
+Proof. vm_compute. split; reflexivity. Qed.
+
+(** The two clamps differ only there: they agree on every request to a row that satisfies the invariant and whose
+    stored reason is not activation_timeout, unless the request is a timeout request that is ignored (late). *)
+Lemma unfixed_agrees o r : t_reason o = None -> clamp_apply_unfixed o r = clamp_apply o r.
+Proof.
+  open_times o; cbn; intros Ho; try discriminate;
+  destruct r as [t | st e rs | t rs | t]; try destruct st as [st|]; reflexivity.
 Qed.
 
 (** Non-vacuity: a concrete sequence (start, heartbeat, late earlier end) that meets every hypothesis and
